@@ -322,6 +322,58 @@ def scope(ctx, r):
             continue
         opens = any(x["k"] == "MethodCall" and x["m"] == "new_scope" for x in q.walk(a["body"]))
         r.ob(opens, f"resolve.rs:{fn}:{v}:no-scope", RES, a["l"], f"{v} must open a new scope for its statements", sample=f"{v}: opens a scope")
+    # a statement nested in an expression or statement (branch of `if`, arm of `match`, body of a loop or block) is resolved
+    # in a scope created inside that construct, and sibling branches do not share it
+    n_nested = 0
+    for fn, enum in (("resolve_names_expr", "ExprKind"), ("resolve_names_stmt", "StmtKind")):
+        f = q.find_fn(items, fn)
+        if f is None:
+            r.missing(fn, RES)
+            continue
+        for m in q.walk(f["body"]):
+            if m["k"] != "Match":
+                continue
+            for a in m["arms"]:
+                heads = [q.last_seg(h) for h in q.pat_heads(a["pat"]) if h.startswith(enum + "::")]
+                if not heads:
+                    continue
+                v = "|".join(heads)
+                fresh_locals = {}
+                for x in q.walk(a["body"]):
+                    if x["k"] == "Local" and x.get("init") is not None and x["init"]["k"] == "MethodCall" and x["init"]["m"] in ("new_scope", "new_closure_scope"):
+                        for nm in q.pat_bindings(x["pat"]):
+                            fresh_locals.setdefault(nm, []).append(x)
+                used = {}
+                for c in q.walk(a["body"]):
+                    if not (c["k"] == "Call" and c["f"]["k"] == "Path" and len(c["args"]) >= 3):
+                        continue
+                    direct = q.last_seg(c["f"]["p"]) == "resolve_names_stmt"
+                    # or a helper that resolves each statement of a list in the table it is given
+                    callee = q.find_fn(items, q.last_seg(c["f"]["p"]))
+                    takes_stmts = callee is not None and len(callee["params"]) >= 3 and "Stmt" in callee["params"][2].get("ty", "")
+                    via = takes_stmts and callee.get("body") is not None and any(y["k"] == "Call" and y["f"]["k"] == "Path" and q.last_seg(y["f"]["p"]) == "resolve_names_stmt" for y in q.walk(callee["body"]))
+                    if not (direct or via):
+                        continue
+                    n_nested += 1
+                    t = c["args"][1]
+                    while t["k"] in ("Ref", "Paren"):
+                        t = t["e"]
+                    inline_fresh = t["k"] == "MethodCall" and t["m"] in ("new_scope", "new_closure_scope")
+                    name = q.show(t)
+                    local_fresh = [x for x in fresh_locals.get(name, []) if x["l"] <= c["l"]]
+                    r.ob(inline_fresh or bool(local_fresh), f"resolve.rs:{fn}:{v}:nested-statement-in-enclosing-scope", RES, c["l"],
+                         f"{fn}: the statement `{q.show(c['args'][2])}` of `{v}` is resolved in `{name}`, the scope the construct itself appears in: a declaration made by that statement (`if c let x = 5`) stays visible after the construct, and when the branch is not taken the VM reads a slot that was never written",
+                         sample=f"{v}: nested statement resolved in a scope of its own")
+                    if local_fresh:
+                        # the same local scope used for two different (non-loop) statements = siblings sharing a scope
+                        in_loop = any(x["k"] == "For" and any(y is c for y in q.walk(x["body"])) for x in q.walk(a["body"]))
+                        if not in_loop:
+                            used.setdefault((name, local_fresh[-1]["l"]), []).append(c)
+                for (name, _), cs in used.items():
+                    r.ob(len(cs) <= 1, f"resolve.rs:{fn}:{v}:scope-shared-between-siblings", RES, cs[-1]["l"],
+                         f"{fn}: {len(cs)} alternative statements of `{v}` are resolved in the same scope `{name}`: a declaration in the first branch is visible in the second",
+                         sample=f"{v}: one scope per branch")
+    r.count("nested statements resolved", n_nested, 4, RES)
     r.count("binding constructs checked", len(seen), 4, RES)
 
 
@@ -1411,3 +1463,88 @@ def assign_target(ctx, r):
     r.ob((not needs) or bool(guards), "typecheck.rs:generate_constraints_stmt:Assign:member-that-is-not-a-field-accepted", TC, ca["l"],
          "the generator lowers `a.m = e` through idx_of_field, which panics unless `m` is a field of a struct; the checker has no diagnostic for a member that resolves to something else (`Color.Red = ..`, `Person.greet = ..`), so such a program is accepted and the compiler panics",
          sample="Assign: member that is not a struct field -> diagnostic, before constraints are generated")
+
+
+@rule("ANA-ON-SUCCESS", ["C03", "C01"], "a checker function that ends by reconciling the node's type with the type its context expects does so on every path that has not reported an error: an early `return` without it accepts `let n: int = <string-valued expression>`")
+def ana_on_success(ctx, r):
+    items = ctx.file_items(am.TC) if hasattr(am, "TC") else ctx.file_items("abra_core/src/statics/typecheck.rs")
+    TCF = "abra_core/src/statics/typecheck.rs"
+    if items is None:
+        r.missing(TCF)
+        return
+    n_fn = 0
+    n_ret = 0
+    for f, _ in q.iter_items(items):
+        if f["k"] != "Fn" or f.get("body") is None:
+            continue
+        stmts = f["body"]["stmts"]
+        if not stmts:
+            continue
+        last = stmts[-1]
+        le = last.get("e") if last["k"] == "ExprStmt" else None
+        if not (le is not None and le["k"] == "Call" and le["f"]["k"] == "Path" and q.last_seg(le["f"]["p"]) == "handle_ana"):
+            continue
+        n_fn += 1
+        blocks = [b for b in q.walk_no_closure(f["body"]) if b["k"] == "Block"]
+        for ret in q.walk_no_closure(f["body"]):
+            if ret["k"] != "Return":
+                continue
+            n_ret += 1
+            # the innermost block holding the return as a statement, and what precedes it there
+            holder = None
+            for b in blocks:
+                for i, s_ in enumerate(b["stmts"]):
+                    if s_ is ret or s_.get("e") is ret:
+                        holder = (b, i)
+            before = holder[0]["stmts"][: holder[1]] if holder else []
+            reported = any(x["k"] == "MethodCall" and x["m"] == "push" and q.show(x["recv"]).endswith("errors") for s_ in before for x in q.walk(s_))
+            reconciled = any(x["k"] == "Call" and x["f"]["k"] == "Path" and q.last_seg(x["f"]["p"]) == "handle_ana" for s_ in before for x in q.walk(s_))
+            # `let Some(x) = ctx.helper(..) else { return }` where the helper reports the error itself before giving None
+            via_callee = False
+            for loc in q.walk_no_closure(f["body"]):
+                if loc["k"] == "Local" and loc.get("else") is not None and holder is not None and loc["else"] is holder[0] and loc.get("init") is not None:
+                    for c in q.walk(loc["init"]):
+                        name = c["m"] if c["k"] == "MethodCall" else (q.last_seg(c["f"]["p"]) if c["k"] == "Call" and c["f"]["k"] == "Path" else None)
+                        g = q.find_fn(items, name) if name else None
+                        if g is not None and g.get("body") is not None and "Option" in (g.get("ret") or "") and any(x["k"] == "MethodCall" and x["m"] == "push" and q.show(x["recv"]).endswith("errors") for x in q.walk(g["body"])):
+                            via_callee = True
+            reported = reported or via_callee
+            r.ob(reported or reconciled, f"typecheck.rs:{f['name']}:return-without-expected-type-check", TCF, ret["l"],
+                 f"{f['name']}: this `return` leaves before the final `handle_ana(..)` on a path that has reported no error, so the expression's type is never compared with the type its context expects: `use util as util; let n: int = util.mk()` (mk returns a string) is accepted and the VM then faults with 'expected int but got string'",
+                 sample=f"{f['name']}: early return after {'an error report' if reported else 'handle_ana'}")
+    r.count("checker functions ending in handle_ana", n_fn, 2, TCF)
+    r.count("early returns in them", n_ret, 5, TCF)
+
+
+@rule("DECL-VALUE", ["C03", "C01"], "a name used as a value has a type or a diagnostic: where the checker maps the declaration a name resolves to onto the type of the expression, a kind of declaration that has no value (a type, an interface, a namespace) is reported, not silently left untyped")
+def decl_value(ctx, r):
+    TCF = "abra_core/src/statics/typecheck.rs"
+    items = ctx.file_items(TCF)
+    if items is None:
+        r.missing(TCF)
+        return
+    n = 0
+    for f, _ in q.iter_items(items):
+        if f["k"] != "Fn" or f.get("body") is None:
+            continue
+        if "Option<TypeVar>" not in (f.get("ret") or "").replace(" ", "") or not any("Declaration" in p.get("ty", "") for p in f["params"]):
+            continue
+        for m in q.walk_no_closure(f["body"]):
+            if m["k"] != "Match" or not any(h.startswith("Declaration::") for a in m["arms"] for h in q.pat_heads(a["pat"])):
+                continue
+            for a in m["arms"]:
+                heads = [q.last_seg(h) for h in q.pat_heads(a["pat"]) if h.startswith("Declaration::")]
+                if not heads:
+                    continue
+                body = a["body"]
+                st = q.body_stmts(body)
+                tail = st[-1]["e"] if st and st[-1]["k"] == "ExprStmt" else None
+                gives_none = tail is not None and tail["k"] == "Path" and tail["p"] == "None"
+                if not gives_none:
+                    continue
+                n += 1
+                reports = any(x["k"] == "MethodCall" and x["m"] == "push" and q.show(x["recv"]).endswith("errors") for x in q.walk(body))
+                r.ob(reports, f"typecheck.rs:{f['name']}:{'|'.join(sorted(set(heads)))}:untyped-without-diagnostic", TCF, a["l"],
+                     f"{f['name']}: a name that resolves to {sorted(set(heads))} gets no type and no diagnostic, so the expression stays unconstrained and unifies with whatever its context expects: `type Color = Red | Blue  let x: int = Color` is accepted, the generator emits nothing for it and the VM stores into a slot that was never pushed",
+                     sample=f"{f['name']}: {sorted(set(heads))} in value position is reported")
+    r.count("declaration kinds without a value", n, 2, TCF)
